@@ -1,0 +1,1 @@
+//! Verification hooks for the `svc` domain (`--cfg litep2p_verif` only).
